@@ -445,7 +445,8 @@ fn decode_mutations<E>(
         let s = &mut set.solutions[output.solution_index as usize];
 
         // Set to check for duplicate mutations.
-        let mut mut_set = HashSet::new();
+        // Keys the solution already mutates count as duplicates too.
+        let mut mut_set: HashSet<Key> = s.state_mutations.iter().map(|m| m.key.clone()).collect();
 
         // For each memory output decode the mutations and apply them.
         for data in output.data {
